@@ -35,9 +35,19 @@ INJECTIONS = ['success', 'malformed', 'bad_envelope', 'unknown_method', 'invalid
               'call_listener_fault@app', 'call_listener_exc@app', 'call_listener_fault@service',
               'call_listener_exc@method', 'return_listener_fault@app', 'return_listener_exc@service',
               'function_fault', 'function_exc', 'unserialisable_return', 'genfunction_fault', 'genfunction_exc',
-              'genfunction_late_fault', 'genfunction_late_exc']
+              'genfunction_late_fault', 'genfunction_late_exc',
+              'success_returns0', 'success_returns2', 'success_returns3', 'function_fault_returns2', 'return_listener_exc_returns2@method']
 LAYOUTS = ('app_only', 'all_levels', 'duplicates', 'diamond', 'late')
 INHERITED = ('service_base', 'service_grand', 'service_base2')
+
+
+def strip_returns(injection):
+    """'success_returns2' -> ('success', 2): the same injection on a method that declares that many return values"""
+    import re
+    m = re.search(r'_returns(\d)', injection)
+    if m:
+        return injection.replace(m.group(0), ''), int(m.group(1))
+    return injection, None
 
 
 def shards(tier, seed):
@@ -56,6 +66,7 @@ def build(kind, layout, injection, trace):
     """Fresh application with recording listeners. Returns (app, wsgi_or_none, method name)."""
     from spyne import Application, Service, rpc, Integer, Unicode, Fault, EventManager
 
+    injection, nret = strip_returns(injection)
     inj, _, level = injection.partition('@')
 
     def rec(level_name, lid):
@@ -125,6 +136,8 @@ def build(kind, layout, injection, trace):
         trace.add('USER', 'return', None)
         if inj == 'unserialisable_return':
             return object()
+        if nret is not None:
+            return tuple([n] * nret) if nret != 1 else n
         return n
 
     def body_gen(ctx, n):
@@ -145,6 +158,9 @@ def build(kind, layout, injection, trace):
         if inj.startswith('genfunction'):
             from spyne import Iterable
             f = rpc(Integer, _returns=Iterable(Integer), _evmgrs=shared_mgrs)(body_gen)
+        elif nret is not None:
+            # a method that returns nothing / two / three values (the response message has that many members)
+            f = rpc(Integer, _returns=(tuple([Integer] * nret) if nret else None), _evmgrs=shared_mgrs)(body)
         else:
             f = rpc(Integer, _returns=Integer, _evmgrs=shared_mgrs)(body)
 
@@ -181,7 +197,7 @@ def build(kind, layout, injection, trace):
 
 
 def request_for(kind, injection):
-    inj = injection.partition('@')[0]
+    inj = strip_returns(injection)[0].partition('@')[0]
     if inj == 'malformed':
         if kind in ('httprpc', 'httprpc-json'):
             return None
@@ -217,6 +233,7 @@ def is_fault_response(kind, driver, out, r):
 def judge(kind, driver, layout, injection, trace, fault_sent, escaped):
     """Specification automaton, per manager level and per listener."""
     V = []
+    injection = strip_returns(injection)[0]
     inj = injection.partition('@')[0]
     seq = trace.seq
     multi = layout != 'app_only'
@@ -334,6 +351,9 @@ def run_case(R, kind, driver, layout, injection):
     app = build(kind, layout, injection, trace)
     if injection.startswith('genfunction') and driver != 'wsgi':
         R.skip('generator functions are consumed by the transport; judged through WSGI only')
+        return
+    if strip_returns(injection)[1] not in (None, 0, 1) and kind == 'httprpc':
+        R.skip('HttpRpc as output protocol writes one primitive: several return values fail in the serializer')
         return
     if injection.startswith('genfunction_late') and kind == 'httprpc':
         R.skip('HttpRpc as output protocol only serialises primitives: the response fails before the generator does')
